@@ -2,7 +2,7 @@
    OCaml driver is pure I/O glue: the extracted [run_line : string -> string] and the kernel's
    [Eval vm_compute in run_line "..."] evaluate the very same function on the very same text. *)
 From Coq Require Import String Ascii DecimalString Decimal.
-From HS Require Import Base PyVal FS Ops.
+From HS Require Import Base PyVal FS Ops Spec.
 Open Scope string_scope.
 
 Definition show_nat (n : nat) : string := NilEmpty.string_of_uint (Nat.to_uint n).
@@ -272,6 +272,13 @@ Definition cmd_trace (h : list call) : string :=
       end
   end.
 
+(* semcheck | h : the programs and the functional specification side by side *)
+Definition cmd_semcheck (h : list call) : string :=
+  match sem_agrees empty_world h 0 with
+  | None => "AGREE"
+  | Some k => "DIFFER " ++ show_nat k
+  end.
+
 Definition run_line (line : string) : string :=
   match split_at "|" (words line) [] with
   | [[cmd]; hw] =>
@@ -280,6 +287,7 @@ Definition run_line (line : string) : string :=
           if String.eqb cmd "seq" then cmd_seq h
           else if String.eqb cmd "states" then cmd_states h
           else if String.eqb cmd "trace" then cmd_trace h
+          else if String.eqb cmd "semcheck" then cmd_semcheck h
           else "BADCMD"
       | None => "PARSE"
       end
